@@ -23,6 +23,8 @@ struct Case {
     inskips: bool,
     wseed: u32,
     xseed: u32,
+    /// 0-1 ordinary weights, 2 small weights (contracting range), 3 zero weights in the range (constant outputs)
+    wclass: u8,
 }
 
 /// A range of layers whose output shape equals `dims` (the input shape of its first layer).
@@ -102,7 +104,10 @@ fn decode(tape: &[u32]) -> Case {
             layers.push(l);
         }
     }
-    Case { spec: NetSpec { input, layers }, a, b, k: t.usize(1, 3), acc: ACCS[t.pick(5)], inskips: t.bool(), wseed: t.raw(), xseed: t.raw() }
+    // k is mostly 1..3; one case in five loops 4..24 times (long loops settle to a fixed point)
+    let k = if t.chance(1, 5) { t.usize(4, 24) } else { t.usize(1, 3) };
+    let wclass = t.pick(4) as u8;
+    Case { spec: NetSpec { input, layers }, a, b, k, acc: ACCS[t.pick(5)], inskips: t.bool(), wseed: t.raw(), xseed: t.raw(), wclass }
 }
 
 fn build_loop(case: &Case) -> Result<Network, String> {
@@ -130,7 +135,20 @@ fn check(case: &Case, ev: &mut CaseEv) -> CheckResult {
         ev.class("range output flattened for a dense layer");
     }
     let mut net = build_loop(case).map_err(|p| Fail::new(format!("valid loop connection {}..{} x{} rejected: {} ({:?})", case.a, case.b, case.k, p, spec)))?;
-    let ps = seeded_params(&net, spec, case.wseed, 1, 1.0);
+    let mut ps = seeded_params(&net, spec, case.wseed, 1, if case.wclass == 2 { 0.15 } else { 1.0 });
+    if case.wclass == 3 {
+        for (r, t) in ps.iter_mut() {
+            // zero the weight matrices / kernels of the looped range, keep biases
+            if r.layer >= case.a && r.layer <= case.b && (r.tensor == 0 || spec.layers[r.layer].is_spatial()) {
+                let d = tensor_dims(t);
+                *t = tens::build(&d, &vec![0.0; count(&d)]);
+            }
+        }
+        ev.class("zero weights in the looped range");
+    }
+    if case.wclass == 2 {
+        ev.class("contracting range");
+    }
     apply_params(&mut net, &ps);
     let x = payload(case.xseed, 3, count(&spec.input), 1.0);
     let xt = tens::build(&spec.input, &x);
@@ -152,7 +170,7 @@ fn check(case: &Case, ev: &mut CaseEv) -> CheckResult {
         let prev = outs.last().unwrap().clone();
         let mut cur = if prev.shape != xa.shape { prev.reshape(xa.shape.clone()) } else { prev };
         if case.inskips {
-            cur.add_inplace(&xa);
+            cur = accumulate(Acc::Add, &cur, &[xa.clone()]);
         }
         outs.push(fwd(case.a, case.b + 1, &cur).map_err(|p| Fail::new(format!("harness model: range forward panicked: {p}")))?);
     }
@@ -236,7 +254,7 @@ impl Prop for C17 {
         t.pick(400_000, 30_000_000)
     }
     fn rule(&self) -> String {
-        "tape-decoded network = optional prefix layer + looped range a..b whose output shape equals the input shape of a (1-3 dense layers; 1-2 shape-preserving convolutions / deconvolutions; 1x1-kernel padding-1 convolution + 3x3 pool; 2x2 deconvolution + 2x2 pool) + optional suffix (a dense layer, which makes the range output flattened, or another fitting layer); k = 1..3, five accumulations, input skips on/off; distinct weights, random inputs. Oracle: o0 = R(x_a), oi = R(o(i-1) [+ x_a]), value passed on = acc(o0; o1..ok), composed from the library's own single-layer forwards and tensor operations (<= 2 ulp, bit-identical today); for overwrite without input skips additionally the plain network with a..b repeated k+1 times and the same weights. Non-trivial: a < b or a spatial range. Distinct = (architecture, a, b, k, accumulation, input skips).".into()
+        "tape-decoded network = optional prefix layer + looped range a..b whose output shape equals the input shape of a (1-3 dense layers; 1-2 shape-preserving convolutions / deconvolutions; 1x1-kernel padding-1 convolution + 3x3 pool; 2x2 deconvolution + 2x2 pool) + optional suffix (a dense layer, which makes the range output flattened, or another fitting layer); k = 1..3 (one case in five: 4..24), ordinary / small / zero weights in the range, five accumulations, input skips on/off; distinct weights, random inputs. Oracle: o0 = R(x_a), oi = R(o(i-1) [+ x_a]), value passed on = acc(o0; o1..ok), composed from the library's own single-layer forwards (accumulations computed by the harness) (<= 2 ulp, bit-identical today); for overwrite without input skips additionally the plain network with a..b repeated k+1 times and the same weights. Non-trivial: a < b or a spatial range. Distinct = (architecture, a, b, k, accumulation, input skips).".into()
     }
     fn run_case(&self, tape: &[u32], ev: &mut CaseEv) -> CheckResult {
         check(&decode(tape), ev)
